@@ -459,7 +459,36 @@ struct VM : VMBase
       cfg.set_override_pattern_formatter_options(quill::PatternFormatterOptions{"%(message)"});
       std::string path = scratch_dir + "/" + name + ".log";
       sink_path[static_cast<size_t>(i)] = path;
-      if (plan.get("sink" + std::to_string(i) + "_notifier", 0) != 0)
+      if (type == 2)
+      {
+        // JsonFileSink: one JSON object per statement (the format template, the source location and the named arguments)
+        // Its before_write callback rejects (throws for) every text that names a statement the plan marked for this sink —
+        // a content-dependent failure of a real sink's write.
+        quill::FileEventNotifier fen;
+        fen.before_write = [this, i](std::string_view message) -> std::string
+        {
+          size_t pos = 0;
+          while ((pos = message.find("\"sid\":\"", pos)) != std::string_view::npos)
+          {
+            pos += 7;
+            int64_t id = 0;
+            while (pos < message.size() && message[pos] >= '0' && message[pos] <= '9')
+            {
+              id = id * 10 + (message[pos++] - '0');
+            }
+            auto it = this->fault_bits.find(id);
+            if (it != this->fault_bits.end() && ((it->second >> i) & 1))
+            {
+              ++this->faults_fired[1];
+              this->record(EV_SINK_THROW, i, id, 0);
+              throw std::runtime_error("simulated before_write rejection");
+            }
+          }
+          return std::string{message};
+        };
+        sinks[static_cast<size_t>(i)] = Fe::template create_or_get_sink<quill::JsonFileSink>(path, cfg, fen);
+      }
+      else if (plan.get("sink" + std::to_string(i) + "_notifier", 0) != 0)
       {
         // a FileSink with user callbacks on file events; before_write hands the statement through unchanged
         quill::FileEventNotifier fen;
@@ -636,7 +665,7 @@ struct VM : VMBase
   {
     for (size_t i = 0; i < sinks.size(); ++i)
     {
-      if (sink_type[i] == 1)
+      if (sink_type[i] != 0)
       {
         Ev& e = record(EV_FILE_SNAP, static_cast<int64_t>(i));
         e.s = read_whole_file(sink_path[i]);
